@@ -20,6 +20,7 @@ from . import evaluator as ev
 from .gkdiref import KeySet, kdf_parameters
 
 # ---- constants (from the protocol documents) -------------------------------------------------
+EMPTY_REPLY_OPNUM = 77       # reference DC: an extra operation whose reply has an empty stub
 PT_REQUEST, PT_RESPONSE, PT_FAULT, PT_BIND, PT_BIND_ACK, PT_BIND_NAK, PT_ALTER, PT_ALTER_RESP = 0, 2, 3, 11, 12, 13, 14, 15
 PFC_FIRST, PFC_LAST, PFC_SIGN, PFC_OBJECT = 0x01, 0x02, 0x04, 0x80
 NDR = (uuid.UUID("8a885d04-1ceb-11c9-9fe8-08002b104860"), 2, 0)
@@ -566,6 +567,10 @@ class Connection:
             return finish_pdu(PT_FAULT, PFC_FIRST | PFC_LAST, h["call_id"], fault_body(0x1C00001A, rq["ctx"]))
         if self.port == 135:
             return self.ept_map(h, rq, stub, ev_)
+        if rq["opnum"] == EMPTY_REPLY_OPNUM and auth is not None and auth["level"] == 6:
+            # an operation without out-parameters: the (sealed, signed) reply carries no stub octets at all
+            self.log(**ev_)
+            return self.sealed_response(h, rq["ctx"], b"", auth)
         return self.get_key(h, rq, stub, ev_, auth)
 
     def ept_map(self, h: dict, rq: dict, stub: bytes, ev_: dict) -> bytes:
@@ -713,12 +718,16 @@ class FakeSocket:
 
     send = sendall
 
-    def _take(self, n: int) -> bytes:
+    def _take(self, n: int, flags: int = 0) -> bytes:
+        import socket as _socket
+
         self.reads += 1
         if self.reads > 100000:
             raise RuntimeError("MACHINERY: runaway reads")
         if not self.rx:
             return b""
+        if flags & _socket.MSG_PEEK:
+            return self.rx[:n]
         gap = getattr(self.net, "read_gap", 0) or 0
         if self.short_read and self.timeout is not None and gap > self.timeout:
             raise TimeoutError("timed out")           # socket.timeout: the next segment is `gap` seconds away
@@ -730,11 +739,11 @@ class FakeSocket:
         return out
 
     def recv(self, n: int, flags: int = 0) -> bytes:
-        return self._take(n)
+        return self._take(n, flags)
 
     def recv_into(self, buf: t.Any, nbytes: int = 0, flags: int = 0) -> int:
         mv = memoryview(buf)
-        d = self._take(nbytes or len(mv))
+        d = self._take(nbytes or len(mv), flags)
         mv[: len(d)] = d
         return len(d)
 
